@@ -414,6 +414,36 @@ def run_matrix(case):
     return {"n": len(names), "sigs": sigs, "viol": viol}
 
 
+WORD_SCRIPT = r"""
+import json, os, sys
+sys.path.insert(0, %r)
+from mc.engine import core
+core.setup_env()
+import warnings; warnings.filterwarnings("ignore")
+import logging; logging.disable(logging.CRITICAL)
+from mc.props import c18
+res = c18.run_history({"kind": "hist", "P": sys.argv[1], "word": sys.argv[2].split(","), "ref": json.loads(sys.argv[3])})
+print("WORD-RESULT " + json.dumps(res))
+"""
+
+
+def run_fresh_history(case):
+    """the word runs in a process of its own: what happened before in the worker cannot hide (or fake) a leak"""
+    env = dict(os.environ)
+    env.update({"NUMBA_NUM_THREADS": "1", "PYTHONHASHSEED": "0"})
+    ref = {k: v for k, v in case["ref"].items() if k in (case["P"],) or k.startswith("_")}
+    r = subprocess.run([sys.executable, "-c", WORD_SCRIPT % VERIF, case["P"], ",".join(case["word"]), json.dumps(ref)],
+                       env=env, capture_output=True, text=True, timeout=1200, check=False)
+    for line in r.stdout.splitlines():
+        if line.startswith("WORD-RESULT "):
+            res = json.loads(line[len("WORD-RESULT "):])
+            res["sigs"] = ["F" + x for x in res["sigs"]]
+            for v in res["viol"]:
+                v["key"] = v["key"].replace("C18/history/", "C18/fresh-process-history/")
+            return res
+    raise RuntimeError("history subprocess failed:\n" + r.stdout[-1500:] + r.stderr[-3000:])
+
+
 def run_history(case):
     from pandora.state_machine import PandoraMachine  # pylint: disable=import-outside-toplevel
 
@@ -503,7 +533,18 @@ def spaces(tier, seed):
                 if f"rM1{P}" not in w:
                     continue
                 hist.append({"kind": "hist", "P": P, "word": list(w), "ref": ref})
+    fresh = []
+    for P in ["P0", "P1", "P2"]:
+        other = "X" + P[1]
+        ops = [f"cM1{P}", f"rM1{P}", "rM2Q1", "rM2Q2", f"cM2{other}", f"rM2{other}"]
+        for ln in range(1, (2 if tier == "quick" else 3) + 1):
+            for w in itertools.product(ops, repeat=ln):
+                if w[-1] != f"rM1{P}" or (ln > 1 and all(o[1:3] == "M1" for o in w)):
+                    continue  # the observed run comes last; pure M1 words are covered in-process
+                fresh.append({"kind": "fresh", "P": P, "word": list(w), "ref": ref})
     return [
+        {"name": "histories, each word in a process of its own (other pipelines first, then P)", "level": 1,
+         "cases": fresh, "chunk": 1},
         {"name": "E4: prange kernels, all iteration orders + conflict detection + compiled conformance", "level": 0,
          "cases": e4, "chunk": 16},
         {"name": "threading configuration matrix (separate processes)", "level": 0, "cases": matrix, "chunk": 1},
@@ -516,6 +557,8 @@ def run_case(case):
         return run_e4(case, 4)
     if case["kind"] == "matrix":
         return run_matrix(case)
+    if case["kind"] == "fresh":
+        return run_fresh_history(case)
     return run_history(case)
 
 
